@@ -16,6 +16,7 @@ pub struct PagedWriter<T: Write + Read + Seek> {
 
     // Set when an operation on the underlying writer failed. Its position is
     // unknown afterwards and the buffered page must not be written when dropping.
+    // All further operations are refused, see check_failed().
     failed: bool,
 
     #[cfg(not(feature = "crc32c"))]
@@ -42,8 +43,25 @@ impl<T: Write + Read + Seek> PagedWriter<T> {
         })
     }
 
+    // After a failed operation the position of the underlying writer and the content
+    // of the page buffer are no longer in sync. Anything written afterwards could end
+    // up at a wrong position, while later operations like finalizing the file would
+    // still report success. Refuse to continue instead.
+    fn check_failed(&self) -> std::io::Result<()> {
+        if self.failed {
+            Err(std::io::Error::new(
+                std::io::ErrorKind::Other,
+                "An earlier operation of this writer failed, it cannot be used any longer",
+            ))
+        } else {
+            Ok(())
+        }
+    }
+
     /// Get the current physical offset in the file.
     pub fn physical_position(&mut self) -> Result<u64> {
+        self.check_failed()
+            .write_err("Cannot get position of failed writer")?;
         let pos = self
             .writer
             .stream_position()
@@ -53,6 +71,7 @@ impl<T: Write + Read + Seek> PagedWriter<T> {
 
     /// Seek to a specific physical offset in the file.
     pub fn physical_seek(&mut self, pos: u64) -> Result<()> {
+        self.check_failed().write_err("Cannot seek failed writer")?;
         let result = self.physical_seek_inner(pos);
         if let Err(Error::Write { .. }) = &result {
             self.failed = true;
@@ -126,6 +145,8 @@ impl<T: Write + Read + Seek> PagedWriter<T> {
 
     // Get the current physical size of the file.
     pub fn physical_size(&mut self) -> Result<u64> {
+        self.check_failed()
+            .write_err("Cannot get size of failed writer")?;
         let result = self.physical_size_inner();
         self.failed |= result.is_err();
         result
@@ -215,12 +236,14 @@ impl<T: Write + Read + Seek> PagedWriter<T> {
 
 impl<T: Write + Read + Seek> Write for PagedWriter<T> {
     fn write(&mut self, buf: &[u8]) -> std::io::Result<usize> {
+        self.check_failed()?;
         let result = self.write_inner(buf);
         self.failed |= result.is_err();
         result
     }
 
     fn flush(&mut self) -> std::io::Result<()> {
+        self.check_failed()?;
         let result = self.flush_inner();
         self.failed |= result.is_err();
         result
